@@ -15,7 +15,8 @@ RULES = {
            "accessor and step shapes), 3/3a/3aSha draw in the same order and bands (RNGPROTO, BAND), slots of variant 2 come from a "
            "per-item reset permutation whose array is only swapped (RESETBEFORE, WRITERS, DRAWSHAPE), the estimator is matches/m (EST)",
     "LAMBDA": "the three constructors of ProbMinHash3 / 3a / 3aSha define the rate of the truncated exponential by the same expression "
-              "of the signature length (sibling agreement) and store ExpRestricted01::new(rate); every E draw uses that field",
+              "of the signature length (sibling agreement), that expression is ln(m/(m-1)) (`.ln()` of m/(m-1), `ln_1p()` of 1/(m-1) or "
+              "-ln((m-1)/m): equality of rational functions), and store ExpRestricted01::new(rate); every E draw uses that field",
     "BETAS": "ProbMinHash2's table betas and ProbOrdMinHash2's table g (both the increments m/(m-i) of the without-replacement race) "
              "agree entry by entry as rational functions of m, and each race adds table[counter] * Exp(1) / weight with the counter "
              "advanced once per draw",
@@ -33,6 +34,32 @@ def lambda_rule(ctx, facts):
             ctx.violation("LAMBDA", pre + "new", "exp01 field", hirq.loc(fn), "the constructor does not initialise exp01 exactly once")
             continue
         forms[pre + "new"] = f[0].replace("(%s as f64)" % P, "(M as f64)").replace("((%s - 1) as f64)" % P, "((M - 1) as f64)")
+        # the rate itself: ln(m/(m-1)) — `.ln()` of m/(m-1), `ln_1p()` of 1/(m-1), or minus `.ln()` of (m-1)/m, any algebraic form
+        from .. import ratfn
+        fe = [f_["e"] for x in hirq.walk(fn["hir"]) if x["k"] == "Struct" for f_ in x["fields"] if f_["name"] == "exp01"][0]
+        fe = nf.strip_casts(fe)
+        for _ in range(4):
+            if fe["k"] == "Path" and "local" in fe["res"] and R.lookup(fe["res"]["local"], fe) is not None:
+                fe = nf.strip_casts(R.lookup(fe["res"]["local"], fe))
+        rate_ok, shown = False, nf.nf(fe, True, res=R)
+        if fe["k"] == "Call" and len(fe.get("args", [])) == 1:
+            a = nf.strip_casts(fe["args"][0])
+            for _ in range(4):
+                if a["k"] == "Path" and "local" in a["res"] and R.lookup(a["res"]["local"], a) is not None:
+                    a = nf.strip_casts(R.lookup(a["res"]["local"], a))
+            neg = False
+            if a["k"] == "Unary" and a["op"] == "-":
+                neg, a = True, nf.strip_casts(a["e"])
+            if a["k"] == "MethodCall" and a["name"] in ("ln", "ln_1p") and not a["args"]:
+                r_ = ratfn.rat(a["recv"], R, {P: (ratfn.p_atom("M"), ratfn.ONE)})
+                want = {("ln", False): "M/(M-1)", ("ln_1p", False): "1/(M-1)", ("ln", True): "(M-1)/M", ("ln_1p", True): "0 - 1/M"}[(a["name"], neg)]
+                rate_ok = ratfn.equal(r_, ratfn.parse(want))
+                shown = "%s%s(%s)" % ("-" if neg else "", a["name"], ratfn.show(r_))
+        if rate_ok:
+            ctx.ok("LAMBDA", pre + "new", "rate == ln(m/(m-1)): %s" % shown[:80], hirq.loc(fe))
+            forms[pre + "new"] = "exp01::ExpRestricted01::new(ln(M/(M-1)).ln())"      # canonical: siblings agree whatever the spelling
+        else:
+            ctx.violation("LAMBDA", pre + "new", "rate value", hirq.loc(fe), "the rate of the truncated exponential is `%s`, expected ln(m/(m-1)) (one point per unit interval hits a given slot with probability 1/m)" % shown[:120])
     vals = set(forms.values())
     if len(vals) == 1 and re.match(r"^exp01::ExpRestricted01::new\(.*\.ln\(\)\)$", list(vals)[0]) and len(forms) == 3:
         ctx.ok("LAMBDA", P3 + "new", "all three constructors: exp01 = %s" % list(vals)[0], hirq.loc(facts.fn(P3 + "new")))
@@ -235,12 +262,12 @@ def run(ctx, facts):
         ctx.rule(k, C02.RULES.get(k, ""))
     ctx.extra["explanation"] = (
         "C01 is an expectation and a mean-squared-error bound over hash randomness; that is NOT decided and no static argument in "
-        "reach can decide it (the truncated-exponential sampler and the numeric value of the rate are value-level). Decided are the "
+        "reach can decide it (the law of the truncated-exponential sampler is value-level; the rate it is built with is checked to be ln(m/(m-1))). Decided are the "
         "structural preconditions anchored in its mechanisms: a common item replays the same race in both sets, registers are guarded "
         "minima, pruning is sound, the variants draw in the same order, slots of variant 2 are a per-item permutation, the rate and "
         "the increment tables are defined consistently across sibling implementations, the estimator is matches/m.")
     ctx.not_decided[:] = ["the expectation E[fraction of equal positions] = J_P and the MSE bound", "the law of the truncated-exponential sampler (C16)",
-                          "the numeric value of the rate ln(m/(m-1)) beyond agreement of the three constructors", "single-set position law w_d / sum(w)"]
+                          "single-set position law w_d / sum(w)"]
     C02.run(ctx, facts)
     ctx.extra["explanation"] = ctx.extra["explanation"]
     # LAMBDA is run by C02.run (3 and 3a agree only if they are built with the same rate)
@@ -253,4 +280,4 @@ def run(ctx, facts):
     for fid in (P2 + "hash_item",):
         pass
     ctx.not_decided[:] = ["the expectation E[fraction of equal positions] = J_P and the MSE bound", "the law of the truncated-exponential sampler (C16)",
-                          "the numeric value of the rate ln(m/(m-1)) beyond agreement of the three constructors", "single-set position law w_d / sum(w)"]
+                          "single-set position law w_d / sum(w)"]
